@@ -20,6 +20,8 @@ import (
 	"net/netip"
 	"testing"
 
+	"github.com/fxamacker/cbor/v2"
+
 	"github.com/mycoria/mycoria/config"
 	"github.com/mycoria/mycoria/frame"
 	"github.com/mycoria/mycoria/m"
@@ -288,16 +290,100 @@ func TestC06(t *testing.T) {
 		// Connection tracking: a 5-tuple first seen on a local (outbound) packet keeps
 		// its remembered verdict; inbound packets of such a tuple are replies to a
 		// tracked connection and outside the claim about services.
-		tracked := map[string]bool{}
+		// The remembered verdict is the one of the first packet of the tuple:
+		// "allowed", "denied" (an inbound packet no service admits) or
+		// "prohibited" (a well-formed local packet that isolation keeps out of
+		// the mesh). Nothing that happens later (a
+		// mirrored packet, an error ping from the remote) turns a refused tuple
+		// into an admitted one.
+		tracked := map[string]string{}
+		type inTuple struct {
+			sender      int
+			proto       uint8
+			port, rport uint16
+		}
+		type outTuple struct {
+			dst    netip.Addr
+			proto  uint8
+			lp, rp uint16
+		}
+		var inHist []inTuple
+		var outHist []outTuple
+		errPingID := uint64(0x7700)
 		nPackets := c.Int("packets", 1, 40)
 		for k := 0; k < nPackets; k++ {
 			if c.Chance("direction.out", 1, 3) {
-				if key := c06Outbound(c, vn, V, st.Router.Isolate, isFriend, friendIDs, knownID, P, tracked); key != "" {
-					tracked[key] = true
+				key, may, tup := c06Outbound(c, vn, V, st.Router.Isolate, isFriend, friendIDs, knownID, P, tracked)
+				if key != "" {
+					// (a local packet that fails the address checks leaves no entry behind)
+					if _, seen := tracked[key]; !seen && tup.valid {
+						if may {
+							tracked[key] = "allowed"
+						} else {
+							tracked[key] = "prohibited"
+						}
+					}
+					if tup.valid {
+						outHist = append(outHist, outTuple{tup.dst, tup.proto, tup.lp, tup.rp})
+					}
 				}
 				continue
 			}
-			s := senders[c.Pick("in.sender", len(senders))]
+			mode := c.Weighted("in.mode", 6, 2, 2, 1) // fresh, retry of an earlier tuple, mirror of a local packet, error ping
+			si := c.Pick("in.sender", len(senders))
+			if mode == 3 {
+				// An authentic error ping from a sender (only its own connections may be affected).
+				s := senders[si]
+				if s.sess == nil || !s.keyed {
+					c.Class("error-ping-skipped")
+					continue
+				}
+				code := uint8(core.OneOf(c, "err.code", 1, 1, 3, 4, 0, 2))
+				var body []byte
+				mt := frame.RouterPing
+				switch code {
+				case 1:
+					body, _ = cbor.Marshal(map[string]any{"u": s.party.ID.Addr.IP})
+				case 3, 4:
+					mt = frame.RouterCtrl
+					port := uint16(40000)
+					proto := uint8(core.OneOf(c, "err.proto", 6, 17, 58))
+					if len(inHist) > 0 && c.Bool("err.from-history") {
+						h := inHist[c.Pick("err.hist", len(inHist))]
+						proto, port = h.proto, h.rport
+					}
+					body, _ = cbor.Marshal(map[string]any{"d": s.party.ID.Addr.IP, "t": proto, "p": port})
+				default:
+					body, _ = cbor.Marshal("text")
+				}
+				errPingID++
+				msg := c07PingMsg(pingHdr{"i": errPingID, "t": "error", "c": code}, body)
+				if code == 0 {
+					msg = c07PingMsg(pingHdr{"i": errPingID, "t": "error"}, body)
+				}
+				f, err := builder.NewFrameV1(s.party.ID.Addr.IP, V.IP(), mt, nil, msg, nil)
+				if err != nil {
+					c.Fatalf("frame: %v", err)
+				}
+				if err := f.Seal(s.sess); err != nil {
+					c.Fatalf("seal error ping: %v", err)
+				}
+				d, _ := f.FrameDataWithMargins(0, 0)
+				d = append([]byte(nil), d...)
+				f.ReturnToPool()
+				if res := vn.Inject(V, lV, d); res.Panicked {
+					c.Fatalf("error ping panicked a worker: %v", vn.Panics)
+				}
+				c.Note("error ping code=%d from %s", code, s.kind)
+				c.Class(fmt.Sprintf("error-ping/code%d", code))
+				vn.Queue = nil
+				if code == 2 {
+					// "no encryption keys" makes V drop its keys for this sender.
+					s.keyed = false
+				}
+				continue
+			}
+			s := senders[si]
 			proto := uint8(core.OneOf(c, "in.proto", 6, 17, 58, 6, 17, 1, 0, 41))
 			if c.Chance("in.proto.rand", 1, 8) {
 				proto = uint8(c.Uniform("in.proto.v", 0, 255))
@@ -326,8 +412,25 @@ func TestC06(t *testing.T) {
 					}
 				}
 			}
+			rport := uint16(40000)
+			repeat := ""
+			switch {
+			case mode == 1 && len(inHist) > 0:
+				h := inHist[c.Pick("in.retry", len(inHist))]
+				si, s, proto, port, rport, repeat = h.sender, senders[h.sender], h.proto, h.port, h.rport, "retry"
+			case mode == 2 && len(outHist) > 0:
+				h := outHist[c.Pick("in.mirror", len(outHist))]
+				for i, cand := range senders {
+					if cand.party.ID.Addr.IP == h.dst {
+						si, s, proto, port, rport, repeat = i, cand, h.proto, h.lp, h.rp, "mirror"
+					}
+				}
+			}
 			innerSrc, innerDst := s.party.ID.Addr.IP, V.IP()
 			spoof := c.Weighted("in.inner", 10, 2, 2, 1)
+			if repeat != "" {
+				spoof = 0
+			}
 			switch spoof {
 			case 1: // claims to come from a friend / someone else
 				if len(friendIDs) > 0 {
@@ -349,8 +452,14 @@ func TestC06(t *testing.T) {
 			if c.Chance("in.short", 1, 10) {
 				plen = c.Int("in.len", 1, 43)
 			}
-			pkt := c07TunPacket(innerSrc, innerDst, proto, 40000, port)[:plen]
+			if repeat != "" {
+				plen = 60
+			}
+			pkt := c07TunPacket(innerSrc, innerDst, proto, rport, port)[:plen]
 			sealWith := c.Weighted("in.seal", 10, 2)
+			if repeat != "" {
+				sealWith = 0
+			}
 			f, err := builder.NewFrameV1(s.party.ID.Addr.IP, V.IP(), frame.NetworkTraffic, nil, pkt, nil)
 			if err != nil {
 				c.Fatalf("frame: %v", err)
@@ -379,15 +488,23 @@ func TestC06(t *testing.T) {
 			if proto != 6 && proto != 17 {
 				effPort = 0
 			}
-			want := sealedOK && plen >= 44 && spoof == 0 && allowed(effProto, effPort, s.party.ID.Addr.IP)
-			remPort := uint16(40000)
+			valid := sealedOK && plen >= 44 && spoof == 0
+			svcAdmits := allowed(effProto, effPort, s.party.ID.Addr.IP)
+			want := valid && svcAdmits
+			remPort := rport
 			if proto != 6 && proto != 17 {
 				remPort = 0
 			}
 			inKey := fmt.Sprintf("%s|%d|%d|%d", s.party.ID.Addr.IP, proto, effPort, remPort)
-			isReply := tracked[inKey]
-			if sealedOK && plen >= 44 && spoof == 0 {
-				tracked[inKey] = true // the router remembers this tuple from now on
+			remembered, isReply := tracked[inKey]
+			if valid && !isReply {
+				// the router remembers this tuple from now on
+				if svcAdmits {
+					tracked[inKey] = "allowed"
+				} else {
+					tracked[inKey] = "denied"
+				}
+				inHist = append(inHist, inTuple{si, proto, port, rport})
 			}
 			before := len(V.Tun.SendFrame)
 			res := vn.Inject(V, lV, data)
@@ -397,8 +514,15 @@ func TestC06(t *testing.T) {
 			got := len(V.Tun.SendFrame) > before
 			desc := fmt.Sprintf("sender=%s keyed=%v sealed-right=%v proto=%d port=%d inner=%d len=%d", s.kind, s.keyed, sealedOK, proto, port, spoof, plen)
 			c.Note("inbound %s -> handed to interface=%v (reference %v)", desc, got, want)
-			if isReply && sealedOK && plen >= 44 && spoof == 0 {
-				c.Class("inbound-reply-to-tracked-connection-not-asserted")
+			if isReply && valid {
+				// A packet of a tuple the router has seen before. It may be handed over
+				// only if the tuple was admitted when it was first seen (by a service,
+				// or as the answer to a local packet that was let into the mesh);
+				// whether an admitted tuple is still served is not asserted.
+				if got && remembered != "allowed" {
+					c.Fatalf("packet handed to the local interface on a connection that was refused when first seen (%s, %s) and that no service admits: %s (services %v)", remembered, repeat, desc, schemes)
+				}
+				c.Class("inbound-on-tracked-connection/" + remembered)
 				want = got
 			}
 			if got != want {
@@ -442,8 +566,9 @@ func TestC06(t *testing.T) {
 }
 
 // c06Outbound sends one local packet; it returns the connection-tracking key
+// (and whether the reference lets the packet into the mesh)
 // the router may have created for it ("" if none).
-func c06Outbound(c *core.Case, vn *vnet.Net, V *vnet.Node, isolate bool, isFriend func(netip.Addr) bool, friendIDs []*ids.Identity, knownID *ids.Identity, P *vnet.Node, tracked map[string]bool) (trackedKey string) {
+func c06Outbound(c *core.Case, vn *vnet.Net, V *vnet.Node, isolate bool, isFriend func(netip.Addr) bool, friendIDs []*ids.Identity, knownID *ids.Identity, P *vnet.Node, tracked map[string]string) (trackedKey string, may bool, tup c06OutTuple) {
 	src := V.IP()
 	if c.Chance("out.src.foreign", 1, 5) {
 		src = knownID.Addr.IP
@@ -486,7 +611,7 @@ func c06Outbound(c *core.Case, vn *vnet.Net, V *vnet.Node, isolate bool, isFrien
 	if len(pkt) > 0 {
 		ver = pkt[0] >> 4
 	}
-	may := len(pkt) >= 44 && ver == 6 && src == V.IP() && m.BaseNetPrefix.Contains(dst) && !dst.IsMulticast() && (!isolate || isFriend(dst))
+	may = len(pkt) >= 44 && ver == 6 && src == V.IP() && m.BaseNetPrefix.Contains(dst) && !dst.IsMulticast() && (!isolate || isFriend(dst))
 	desc := fmt.Sprintf("src-own=%v dst=%s kind=%d version=%d len=%d isolate=%v friend=%v", src == V.IP(), dst, kind, ver, len(pkt), isolate, isFriend(dst))
 	c.Note("outbound %s -> %d frame(s) emitted (may=%v)", desc, len(emitted), may)
 	if len(pkt) >= 44 && ver == 6 {
@@ -496,8 +621,9 @@ func c06Outbound(c *core.Case, vn *vnet.Net, V *vnet.Node, isolate bool, isFrien
 			lp, rp = uint16(pkt[40])<<8|uint16(pkt[41]), uint16(pkt[42])<<8|uint16(pkt[43])
 		}
 		trackedKey = fmt.Sprintf("%s|%d|%d|%d", dst, proto, lp, rp)
+		tup = c06OutTuple{dst, proto, lp, rp, src == V.IP() && m.BaseNetPrefix.Contains(dst) && !dst.IsMulticast()}
 	}
-	if trackedKey != "" && tracked[trackedKey] && src == V.IP() {
+	if trackedKey != "" && tracked[trackedKey] == "allowed" && src == V.IP() {
 		// Same 5-tuple as an earlier packet: the remembered verdict applies
 		// (e.g. the answer to an admitted inbound connection).
 		c.Class("outbound-on-tracked-connection-not-asserted")
@@ -526,5 +652,12 @@ func c06Outbound(c *core.Case, vn *vnet.Net, V *vnet.Node, isolate bool, isFrien
 	for len(V.Tun.SendRaw) > 0 {
 		<-V.Tun.SendRaw
 	}
-	return trackedKey
+	return trackedKey, may, tup
+}
+
+type c06OutTuple struct {
+	dst    netip.Addr
+	proto  uint8
+	lp, rp uint16
+	valid  bool // passes the address checks, i.e. the router evaluates the policy for it
 }
